@@ -201,6 +201,10 @@ def _mk():
         'blanks': 'only blanks are skipped', 'stops': 'the loop stops exactly at the first character it must not skip (or at the end of the text)',
         'oneline': 'no newline is skipped', 'consistent': 'the returned position is consistent: (line, column, raw offset) designate the same character of the text',
     }
+    # Lexer::next is verified against the contracts of every other function of the unit, so each of them carries
+    # both token-level properties (C07 coverage, C09 locations)
+    for k in list(props):
+        props[k] = sorted(set(props[k]) | {'C07', 'C09'})
     for it in UNIT['items']:
         if 'fn' not in it:
             continue
